@@ -384,6 +384,7 @@ func c15E2(tier string, o *E2Out) {
 		}
 		run("structure", mode, []cfgMap{b, over})
 	}
+	c15ExtendsChain(o, dir, &idx)
 	// (d) extends
 	for _, wd := range []string{"", "rel/dir", "/abs/dir"} {
 		idx++
@@ -425,6 +426,74 @@ func c15E2(tier string, o *E2Out) {
 		if gv != wv {
 			field := c15Diff(gv, wv)
 			o.violation("C15", "extends-differs:"+field, fmt.Sprintf("extends gives %s\n explicit list gives %s", c15Excerpt(gv, field), c15Excerpt(wv, field)), in)
+		}
+	}
+}
+
+// three-level extends chain: top -> mid -> base must merge as base, mid, top
+func c15ExtendsChain(o *E2Out, dir string, idx *int) {
+	for _, optPath := range []string{"command", "shutdown.timeout_seconds", "environment", "depends_on", "project:log_level"} {
+		*idx++
+		if !o.mine(*idx) {
+			continue
+		}
+		mk := func(level string) cfgMap {
+			p := cfgMap{}
+			switch optPath {
+			case "command":
+				p["command"] = "cmd from " + level
+			case "shutdown.timeout_seconds":
+				p.set("shutdown.timeout_seconds", map[string]int{"base": 11, "mid": 22}[level])
+			case "environment":
+				p["environment"] = []string{"LEVEL=" + level}
+			case "depends_on":
+				p["depends_on"] = cfgMap{"q": cfgMap{"condition": map[string]string{"base": "process_completed", "mid": "process_started"}[level]}}
+			}
+			f := cfgMap{"version": "0.5", "processes": cfgMap{"p": p}}
+			if optPath == "project:log_level" {
+				f["log_level"] = map[string]string{"base": "debug", "mid": "warn"}[level]
+			}
+			return f
+		}
+		base := mk("base")
+		base["processes"].(cfgMap)["p"].(cfgMap)["description"] = "from base"
+		if _, ok := base["processes"].(cfgMap)["p"].(cfgMap)["command"]; !ok {
+			base["processes"].(cfgMap)["p"].(cfgMap)["command"] = "keep"
+		}
+		base["processes"].(cfgMap)["q"] = cfgMap{"command": "q"}
+		mid := mk("mid")
+		top := cfgMap{"version": "0.5", "processes": cfgMap{"p": cfgMap{"namespace": "topns"}}}
+		midE, topE := mid.clone(), top.clone()
+		midE["extends"] = "base.yaml"
+		topE["extends"] = "mid-ext.yaml"
+		fm := map[string]string{"chain/base.yaml": yamlOf(base), "chain/mid-ext.yaml": yamlOf(midE), "chain/top-ext.yaml": yamlOf(topE),
+			"chain/mid.yaml": yamlOf(mid), "chain/top.yaml": yamlOf(top)}
+		in := c15Input{Kind: "extends-chain", Option: optPath, Base: yamlOf(base), Override: yamlOf(midE), Third: yamlOf(topE)}
+		o.Evaluations++
+		o.Distinct++
+		ext, err := loadFiles(dir, fm, []string{"chain/top-ext.yaml"}, false)
+		both, err2 := loadFiles(dir, fm, []string{"chain/base.yaml", "chain/mid.yaml", "chain/top.yaml"}, false)
+		if err != nil || err2 != nil {
+			o.violation("C15", "extends-differs:load-error", fmt.Sprintf("extends chain: %v / explicit: %v", err, err2), in)
+			continue
+		}
+		chainDir := filepath.Join(dir, "chain")
+		for n, pc := range both.Processes {
+			if pc.WorkingDir == "" {
+				pc.WorkingDir = chainDir
+				both.Processes[n] = pc
+			}
+		}
+		for n, pc := range ext.Processes { // processes defined only by the top file keep an empty dir
+			if pc.WorkingDir == "" {
+				pc.WorkingDir = chainDir
+				ext.Processes[n] = pc
+			}
+		}
+		gv, wv := mergedView(ext), mergedView(both)
+		if gv != wv {
+			field := c15Diff(gv, wv)
+			o.violation("C15", "extends-differs:chain:"+field, fmt.Sprintf("three-level extends chain gives %s\n explicit list base,mid,top gives %s", c15Excerpt(gv, field), c15Excerpt(wv, field)), in)
 		}
 	}
 }
